@@ -22,9 +22,9 @@ Print Assumptions C15_first.
 
 (* C15, "occurrences before the call ... have no effect": for every setting of the switches, the history before the call
    matters only through the current value of the state expression - and not at all when there is no state trigger or
-   state_check_now is off. *)
+   state_check_now is off and state_hold_false is not given. *)
 Theorem C15_deaf_before : forall cfg legacy a L0 init pre init' pre' h,
-  truth_after init pre = truth_after init' pre' \/ a_state a = false \/ cn_eff legacy a = false ->
+  truth_after init pre = truth_after init' pre' \/ a_state a = false \/ (cn_eff legacy a = false /\ a_hf a = None) ->
   run cfg legacy a L0 init pre h = run cfg legacy a L0 init' pre' h.
 Proof. exact run_deaf_before. Qed.
 Print Assumptions C15_deaf_before.
